@@ -169,7 +169,69 @@ def c18(tier):
     return jobs, meta
 
 
+def c12(tier):
+    q = tier == 'quick'
+    jobs = []
+    for n in range(0, 3 if q else 4):
+        for mode in (0, 1):
+            jobs.append((H('parser/lexer', 'HarnessC12String'), P('parser/lexer'), None, {'params': {'n': n, 'mode': mode}, 'label': 'string n=%d mode=%d' % (n, mode), 'split_after': 30, 'job_timeout': 1500}))
+    for form in range(6):
+        for n in range(1, 3 if q else 4):
+            jobs.append((H('parser', 'HarnessC12Number'), P('parser'), None, {'params': {'form': form, 'n': n}, 'label': 'number form=%d n=%d' % (form, n), 'split_after': 30, 'job_timeout': 1500}))
+    import random, itertools
+    NT = 12
+    rnd = random.Random(SEED[0])
+    layouts = [(a,) for a in range(NT)] + [(a, b) for a in range(NT) for b in range(NT)]
+    triples = list(itertools.product(range(NT), repeat=3))
+    rnd.shuffle(triples)
+    layouts += triples[:24 if q else 300]
+    if q:
+        pairs = [l for l in layouts if len(l) == 2]
+        rnd.shuffle(pairs)
+        layouts = [l for l in layouts if len(l) != 2] + pairs[:60]
+    for lay in layouts:
+        prm = {'k': len(lay), 'gap': 2 if len(lay) < 3 else 1}
+        for i, t in enumerate(lay):
+            prm['t%d' % i] = t
+        jobs.append((H('parser/lexer', 'HarnessC12Positions'), P('parser/lexer'), None, {'params': prm, 'label': 'positions tokens=%s gap<=%d' % (list(lay), prm['gap']), 'job_timeout': 600}))
+    meta = {
+        'explanation': 'real lexer (Lex and all state functions, scanString/scanEscape/scanNumber, unescape/unescapeChar) and the Number case of the real parser executed symbolically: (a) a string value of n SYMBOLIC bytes (valid UTF-8, runes < U+0800, control characters/quotes/backslashes included) spelled by a reference escaper (named escapes, or every rune as \\uXXXX; both quote styles) must lex back to exactly that value; (b) number spellings of each documented form with SYMBOLIC digits (decimal with separators, 0x/0X hex incl. digits e/E, floats with fraction/exponent, leading dot, range look-ahead) must be one token classified as the form demands (exact symbolic model of ParseInt, ParseFloat as uninterpreted function of the spelling); (c) token layouts with SYMBOLIC whitespace/line breaks and multi-byte characters: every token Location is the position of its first character',
+        'bounds': {'string bytes': '<= %d' % (2 if q else 3), 'digits per group': '<= %d' % (2 if q else 3), 'layout': 'up to %d tokens, gaps of <= 2 symbolic whitespace bytes' % (3 if q else 4), 'runes': '< U+0800 (3- and 4-byte runes are cut and counted)'},
+        'outside': ['runes >= U+0800 (non-BMP included)', 'the numeric value computed by strconv.ParseFloat', 'octal/binary prefixes'],
+        'assumptions': COMMON_ASSUME + ['unicode.IsSpace/IsLetter/IsDigit below U+0800 follow the table generated from the real unicode package at setup'],
+        'must_reach': ['c12.string.lexed', 'c12.number.parsed', 'c12.pos.lexed'],
+    }
+    return jobs, meta
+
+
+def c04(tier):
+    import templates
+    q = tier == 'quick'
+    jobs = []
+    for n in range(0, 3 if q else 4):
+        jobs.append((H('parser/lexer', 'HarnessC04Lex'), P('parser/lexer'), None, {'params': {'n': n}, 'label': 'lex n=%d' % n, 'split_after': 40, 'job_timeout': 3000}))
+    for n in range(0, 3 if q else 4):
+        jobs.append((H('parser', 'HarnessC04Parse'), P('parser'), None, {'params': {'n': n}, 'label': 'parse bytes n=%d' % n, 'split_after': 40, 'job_timeout': 3000}))
+    for k in range(1, 3 if q else 4):
+        jobs.append((H('parser', 'HarnessC04ParseTokens'), P('parser'), None, {'params': {'k': k}, 'label': 'parse tokens k=%d' % k, 'split_after': 40, 'job_timeout': 3000}))
+    srcs = templates.C04_SOURCES
+    if q:
+        srcs = srcs[SEED[0] % 3::3]
+    for src in srcs:
+        jobs.append((H('.', 'HarnessC04Compile'), P('.'), None, {'params': {'src': src}, 'label': 'compile ' + src, 'split_after': 200, 'job_timeout': 3000}))
+    meta = {
+        'explanation': 'a panic or non-termination is a path outcome of the symbolic executor: (1) Lex on a buffer of n fully SYMBOLIC bytes (valid and invalid UTF-8); (2) Parse on n symbolic bytes and on k symbolic choices from a 35-token alphabet; (3) expr.Compile on grammatical seeds (well- and ill-typed) under every combination of options chosen symbolically (Env struct/map/none, AllowUndefinedVariables, Optimize, AsBool/AsInt64/AsFloat64, Operator, ConstExpr, four node-replacing Patch visitors) followed by Run and Eval on an environment with nil members and a panicking function; asserted: no path ends in an uncaught panic, every loop finishes within the unwinding bound, error => nil program/value, no error => usable program',
+        'bounds': {'lexer bytes': '<= %d' % (2 if q else 3), 'parser bytes': '<= %d' % (2 if q else 3), 'parser tokens': '<= %d of 35' % (2 if q else 3), 'seeds': len(srcs), 'option combinations': 'all (3 env x 2 x 2 x 4 x 2 x 2 x 5)'},
+        'outside': ['inputs longer than the bound (64 KiB is far outside)', 'stack exhaustion on deep nesting', 'time complexity'],
+        'assumptions': COMMON_ASSUME,
+        'must_reach': ['c04.lex.returned', 'c04.parse.returned', 'c04.parsetokens.returned', 'c04.compile.returned', 'c04.run.returned'],
+    }
+    return jobs, meta
+
+
 PROPS = {
+    'C04': c04,
+    'C12': c12,
     'C02': c02,
     'C15': c15,
     'C18': c18,
